@@ -2,6 +2,7 @@
 from symx.run import Harness
 from flumine.order.order import OrderStatus
 from . import common as cm
+from . import lifecycle as lc
 from . import position as pos
 
 TOL = 0.01  # get_exposures rounds the matched and the unmatched component to the cent separately (2 x half a cent)
@@ -38,8 +39,11 @@ def h16a(c, n=2, mode="S", statuses="quick", kinds=None, new_kinds=None, part_ca
             no.update_client(client)
             kw["new_order"] = no
             ods = ds + [nd]
+        sig0 = lc.views_sig(market.blotter)
         with c.guard("get_exposures"):
             ex = market.blotter.get_exposures(strategy, lookup, **kw)
+        # a what-if query reads the book, it never writes to it
+        c.ob("query-leaves-the-book-unchanged", lc.views_sig(market.blotter) == sig0)
         ww, wl = pos.worst_case(c, ods)
         c.observe("worst_possible_profit_on_win", ex["worst_possible_profit_on_win"])
         c.observe("worst_possible_profit_on_lose", ex["worst_possible_profit_on_lose"])
@@ -58,7 +62,7 @@ def h16a(c, n=2, mode="S", statuses="quick", kinds=None, new_kinds=None, part_ca
             c.ob("selection_exposure>=0", se >= 0)
 
 
-def h16b(c, S=2, mode="S", winners=(1, 2), sel0=(1,), extra=(0, 2), rich=False):
+def h16b(c, S=2, mode="S", winners=(0, 1, 2), sel0=(1,), extra=(0, 2), rich=False):
     """Blotter.market_exposure vs brute force over every admissible winner set"""
     with cm.config_set(simulated=True):
         fl, client, strategy, market, bk = _world(c)
@@ -92,8 +96,10 @@ def h16b(c, S=2, mode="S", winners=(1, 2), sel0=(1,), extra=(0, 2), rich=False):
                 per_sel[0] = per_sel[0] + [nd]
             else:
                 per_sel.append([nd])
+        sig0 = lc.views_sig(market.blotter)
         with c.guard("market_exposure"):
             me = market.blotter.market_exposure(strategy, bk, **kw)
+        c.ob("query-leaves-the-book-unchanged", lc.views_sig(market.blotter) == sig0)
         c.observe("market_exposure", me)
         wc = [pos.worst_case(c, ds) for ds in per_sel]
         orc = pos.market_worst(c, wc, W, R)
